@@ -34,7 +34,7 @@ CONFIG = dict(
     min_nontrivial={"quick": 1500, "thorough": 30000},
     nshards={"quick": 8, "thorough": 16},
     timeout={"quick": 900, "thorough": 5400},
-    required_counters=("refused_first_attempts", "rewritten_loads", "effect_logs_compared", "find_class_sequences_compared", "stack_at_stop_checked"),
+    required_counters=("copied_base_injections", "refused_first_attempts", "rewritten_loads", "effect_logs_compared", "find_class_sequences_compared", "stack_at_stop_checked"),
 )
 
 INJ_SRC = "__import__('vp_sink').hit('INJ', 7)"
@@ -317,6 +317,21 @@ def check(ctx, f, analysis, label, base, mode, opt):
                 fh.write(base)
             with open(vf_path, "rb") as fh:
                 p = f.Pickled.load(fh)
+        elif opt.get("copied"):
+            # one parsed base, independent deep copies of it injected one after the other (a payload per target from
+            # one template): the copy looked at is the third one, or the original after its copies were rewritten
+            import copy
+            p0 = f.Pickled.load(base)
+            plain = {k: v for k, v in opt.items() if k != "copied"}
+            for _ in range(2):
+                sib = copy.deepcopy(p0)
+                try:
+                    inject(f, sib, mode, plain)
+                    sib.dumps()
+                except Exception:
+                    pass
+            p = copy.deepcopy(p0) if opt["copied"] == "third-copy" else p0
+            agg.count("copied_base_injections")
         else:
             p = f.Pickled.load(base)
         if p is None:
@@ -543,6 +558,14 @@ def run_shard(ctx):
                 if i % ctx.nshards == ctx.shard:
                     check(ctx, f, analysis, label, base, mode, dict(opt, via_file=True))
                     ctx.agg.count("in_place_rewrites")
+    # histories: deep copies of one parsed base rewritten one after the other
+    for bi, (label, base) in enumerate(blist):
+        if len(base) > 3000 or bi % 3:
+            continue
+        for mode, opt in MODES:
+            i += 1
+            if i % ctx.nshards == ctx.shard and (ctx.tier != "quick" or i % 3 == 0):
+                check(ctx, f, analysis, label, base, mode, dict(opt, copied="third-copy" if i % 2 else "original-after-copies"))
     # histories: refused helper call -> valid injection, on the same parsed object
     rng = asm.rng_for(ctx.seed, "c08refused")
     nref = {"quick": 40, "thorough": 600}[ctx.tier]
